@@ -753,6 +753,44 @@ def evaluate(sp, c):
     return r, bad, info, (expr_pd(c, r) if r["obs"] else None)
 
 
+def narrow_iterate_stream(ctx, sp, rng):
+    """the caller's iterate is stored in SINGLE precision while the data (A, y, hence gradf's result) are double: the documented gap
+    bounds L||x0-x*||^2/(2k) and 2L||x0-x*||^2/(k+1)^2 must hold all the same (objective evaluated in double on the caller's array),
+    and the caller's array is the one that moves.  A step that silently fails to write into a narrower array leaves x at x0."""
+    bad = []
+    for i in range(ctx.n(24, 240)):
+        nprng = np.random.RandomState(rng.randrange(2 ** 31))
+        m, n = rng.randint(2, 7), rng.randint(1, 5)
+        cplx = rng.random() < 0.4
+        A = nprng.standard_normal((m, n)) + (1j * nprng.standard_normal((m, n)) if cplx else 0)
+        y = nprng.standard_normal(m) + (1j * nprng.standard_normal(m) if cplx else 0)
+        x0d = nprng.standard_normal(n) * 3 + (1j * nprng.standard_normal(n) if cplx else 0)
+        x = x0d.astype(np.complex64 if cplx else np.float32)
+        x0 = x.astype(A.dtype)                       # the start actually used (rounded to single)
+        Lc = float(np.linalg.norm(A, 2) ** 2)
+        xs = np.linalg.lstsq(A, y, rcond=None)[0]
+        f = lambda v: 0.5 * float(np.linalg.norm(A @ v - y) ** 2)      # noqa: E731
+        acc = bool(i % 2)
+        AH = A.conj().T
+        alg = sp.alg.GradientMethod(lambda v: AH @ (A @ v - y), x, 1.0 / Lc, accelerate=acc, max_iter=12, tol=0)
+        d2 = float(np.linalg.norm(x0 - xs) ** 2)
+        for k in range(1, 13):                       # "after k updates": the bound is about update(), whatever done() says
+            alg.update()
+            gap = f(x.astype(A.dtype)) - f(xs)
+            bound = (2 * Lc * d2 / (k + 1) ** 2) if acc else (Lc * d2 / (2 * k))
+            if gap > bound * (1 + 1e-4) + 1e-5 * (f(x0) + 1e-30):
+                bad.append(dict(A=[[str(v) for v in r] for r in A.tolist()], y=[str(v) for v in y.tolist()], x0=[str(v) for v in x0.tolist()],
+                                accelerate=acc, update=k, gap=gap, bound=bound, iterate_dtype=str(x.dtype)))
+                break
+        ctx.count("gm:single-precision-iterate:%s" % ("acc" if acc else "plain"), nontrivial=False)
+    ctx.obligation("oracle:gap bounds with a single-precision caller iterate and double data", not bad)
+    if bad:
+        b = bad[0]
+        ctx.violation("GradientMethod on a %s iterate with double-precision data: objective gap %.3g after %d updates exceeds the bound %.3g "
+                      "(the caller's array does not follow the iteration)" % (b["iterate_dtype"], b["gap"], b["update"], b["bound"]),
+                      dict(b, kind="oracle"), signature="C13:gm:single-precision-iterate")
+
+
 def run(ctx):
     ctx.source_hash("sigpy/alg.py", "sigpy/prox.py", "sigpy/thresh.py")
     # tie by translation (DESIGN 2.8): gen/Gen_alg_pg.v (GradientMethod / PDHG steps == coq/model/ProxGrad.v, this check's model)
@@ -799,6 +837,7 @@ def run(ctx):
         ctx.notes.append("correspondence could not run: %s" % str(e)[:500])
     ctx.obligation("corr:model==impl trajectories (%d cases)" % len(done), corr_ok and not failing)
     ctx.obligation("oracle:descent/rates/saddle/fejer/in-place/update-rule (%d cases)" % len(cases), not oracle_bad)
+    narrow_iterate_stream(ctx, sp, rng)
     ctx.coverage["rule"] = ("seeded composite problems min 1/2||Ax-y||^2+g(x), A in {gaussian, ill-conditioned 1e3, scaled, sparse}, dims 1-8 "
                             "(complex 1-5), g in {None, NoOp, l1, l2^2, box}; GradientMethod with alpha = frac/L (frac in (0,1]), "
                             "accelerate on/off, 30-40 updates; GradientMethod on f = 1/2||x-y||^2 (A = I, L = 1, alpha = frac <= 1) with a gradf that "
@@ -847,6 +886,8 @@ def run(ctx):
 
 
 def replay(obj):
+    if "case" not in obj:
+        return "rerun"          # stream-level findings are regenerated from the recorded seed and tier
     sp = core.import_sigpy()
     c = obj["case"]
     r, bad, info, _ = evaluate(sp, c)
